@@ -28,6 +28,9 @@ import (
 type c14Req struct {
 	Kind string `json:"kind"` // ok declared error appex unknown missing wrongtype oneway truncated
 	Conn int    `json:"conn"` // connection / publisher index
+	// big (NATS server only): the handler's result is sized so that the complete reply frame is
+	// 1 MiB + Delta bytes; the reply must be that result (Delta <= 0) or RESPONSE_TOO_LARGE
+	Delta int `json:"delta,omitempty"`
 }
 
 type c14Case struct {
@@ -50,7 +53,14 @@ func genC14(t *rapid.T) c14Case {
 	c.Workers = rapid.IntRange(1, 4).Draw(t, "workers")
 	n := rapid.IntRange(1, 30).Draw(t, "n")
 	for i := 0; i < n; i++ {
-		c.Reqs = append(c.Reqs, c14Req{rapid.SampledFrom(c14Kinds).Draw(t, "kind"), rapid.IntRange(0, c.Conns-1).Draw(t, "conn")})
+		c.Reqs = append(c.Reqs, c14Req{Kind: rapid.SampledFrom(c14Kinds).Draw(t, "kind"), Conn: rapid.IntRange(0, c.Conns-1).Draw(t, "conn")})
+	}
+	if c.Server == "nats" {
+		for i, k := 0, rapid.IntRange(0, 2).Draw(t, "nbig"); i < k; i++ {
+			at := rapid.IntRange(0, len(c.Reqs)-1).Draw(t, "bigat")
+			c.Reqs[at].Kind = "big"
+			c.Reqs[at].Delta = rapid.IntRange(-9, 12).Draw(t, "delta")
+		}
 	}
 	return c
 }
@@ -72,6 +82,18 @@ func classifyC14(c c14Case) ev.Class {
 	for k := range kinds {
 		labels = append(labels, "kind="+k)
 	}
+	for _, r := range c.Reqs {
+		if r.Kind == "big" {
+			switch {
+			case r.Delta <= 0:
+				labels = append(labels, "big-reply-at-or-below-1MiB")
+			case r.Delta <= 4:
+				labels = append(labels, "big-reply-1..4-bytes-above-1MiB")
+			default:
+				labels = append(labels, "big-reply-above-1MiB")
+			}
+		}
+	}
 	conc := (c.Server == "simple" || c.Server == "http") && c.Conns >= 2 || c.Server == "nats" && (c.Workers >= 2 || c.Conns >= 2)
 	if conc {
 		labels = append(labels, "concurrent")
@@ -85,12 +107,19 @@ func classifyC14(c c14Case) ev.Class {
 // request frame for a kind; returns the frame (with size prefix), the op id and
 // whether a reply is expected.
 func c14Frame(proto string, kind string, id int) (frame []byte, opid string) {
+	return c14FrameL(proto, kind, id, 0)
+}
+
+func c14FrameL(proto string, kind string, id int, size int) (frame []byte, opid string) {
 	opid = fmt.Sprint(900000 + id)
 	hdr := []KV{kv("_opid", opid), kv("_cid", fmt.Sprintf("cid-%d", id)), kv("_timeout", "5000")}
 	arg := fmt.Sprintf("%s:%d", kind, id)
+	if kind == "big" {
+		arg = fmt.Sprintf("big:%d:%d", id, size)
+	}
 	var msg []byte
 	switch kind {
-	case "ok", "declared", "error", "appex", "limit413":
+	case "ok", "declared", "error", "appex", "limit413", "big":
 		msg = thriftMessage(proto, "echo", thrift.CALL, &strStruct{Name: "echo_args", ID: 1, V: &arg})
 	case "oneway":
 		msg = thriftMessage(proto, "fire", thrift.ONEWAY, &strStruct{Name: "fire_args", ID: 1, V: &arg})
@@ -210,10 +239,19 @@ func execC14Inner(c c14Case) *ev.Failure {
 	calls := map[string]int{}
 	h := &svcHandler{
 		echo: func(ctx frugal.FContext, v string) (string, error) {
+			key := v
+			size := 0
+			if strings.HasPrefix(v, "big:") {
+				p := strings.SplitN(v, ":", 3)
+				key = p[0] + ":" + p[1]
+				fmt.Sscan(p[2], &size)
+			}
 			mu.Lock()
-			calls[v]++
+			calls[key]++
 			mu.Unlock()
 			switch {
+			case strings.HasPrefix(v, "big:"):
+				return strings.Repeat("a", size), nil
 			case strings.HasPrefix(v, "declared:"):
 				return "", &oopsError{v}
 			case strings.HasPrefix(v, "error:"):
@@ -432,8 +470,14 @@ func execC14Inner(c c14Case) *ev.Failure {
 				if it.kind != "oneway" {
 					expected++
 				}
+				if it.kind == "big" {
+					expected++ // the calibration call
+				}
 			}
 		}
+		const calSize = 1000000
+		var bigMu sync.Mutex
+		bigSize := map[int]int{}
 		for cn := range byConn {
 			wg.Add(1)
 			go func(cn int) {
@@ -445,7 +489,33 @@ func execC14Inner(c c14Case) *ev.Failure {
 				}
 				defer pc.Close()
 				for _, it := range byConn[cn] {
-					frame, _ := c14Frame(c.Proto, it.kind, it.id)
+					size := 0
+					if it.kind == "big" {
+						// calibration: the same call with a result of calSize bytes tells how much the
+						// frame adds around the result (same id, same protocol, same number of digits)
+						calFrame, _ := c14FrameL(c.Proto, "big", it.id, calSize)
+						calSubj := fmt.Sprintf("%s.cal-%d", inbox, it.id)
+						pc.PublishRequest(subj, calSubj, calFrame)
+						pc.Flush()
+						var calReply []byte
+						waitFor(5*time.Second, func() bool {
+							rmu.Lock()
+							defer rmu.Unlock()
+							if len(replies[calSubj]) > 0 {
+								calReply = replies[calSubj][0]
+							}
+							return calReply != nil
+						})
+						if calReply == nil {
+							fails[cn] = ev.Failf("no-reply", "nats: request %d (big, calibration call with a %d byte result) got no reply within 5s", it.id, calSize)
+							return
+						}
+						size = calSize + (1 << 20) + c.Reqs[it.id].Delta - len(calReply)
+						bigMu.Lock()
+						bigSize[it.id] = size
+						bigMu.Unlock()
+					}
+					frame, _ := c14FrameL(c.Proto, it.kind, it.id, size)
 					pc.PublishRequest(subj, fmt.Sprintf("%s.%d", inbox, it.id), frame)
 				}
 				pc.Flush()
@@ -487,6 +557,31 @@ func execC14Inner(c c14Case) *ev.Failure {
 				if len(rs[0]) < 4 || int(binary.BigEndian.Uint32(rs[0])) != len(rs[0])-4 {
 					return ev.Failf("reply-malformed", "nats: request %d (%s): reply size prefix does not match its length %d", it.id, it.kind, len(rs[0]))
 				}
+				if it.kind == "big" {
+					delta, size := c.Reqs[it.id].Delta, bigSize[it.id]
+					what := fmt.Sprintf("nats: request %d (big: handler result of %d bytes, complete reply frame = 1 MiB %+d bytes)", it.id, size, delta)
+					if n := len(replies[fmt.Sprintf("%s.cal-%d", inbox, it.id)]); n != 1 {
+						return ev.Failf("reply-count", "%s: its calibration call got %d replies", what, n)
+					}
+					r, err := parseReply(c.Proto, rs[0][4:])
+					if err != nil {
+						return ev.Failf("reply-malformed", "%s: %v", what, err)
+					}
+					if r.opid != opid {
+						return ev.Failf("reply-opid", "%s: reply carries op id %q, request had %s", what, r.opid, opid)
+					}
+					if delta <= 0 {
+						if r.mtype != thrift.REPLY || r.result.Success == nil || len(*r.result.Success) != size || strings.Trim(*r.result.Success, "a") != "" {
+							return ev.Failf("reply-content", "%s: want REPLY with the %d byte result, got message type %d exception type %d (reply of %d bytes)", what, size, r.mtype, r.exType, len(rs[0]))
+						}
+						if len(rs[0]) != (1<<20)+delta {
+							return ev.Failf("harness:calibration", "%s: reply frame has %d bytes", what, len(rs[0]))
+						}
+					} else if r.mtype != thrift.EXCEPTION || r.exType != frugal.APPLICATION_EXCEPTION_RESPONSE_TOO_LARGE {
+						return ev.Failf("reply-content", "%s: want EXCEPTION RESPONSE_TOO_LARGE, got message type %d exception type %d", what, r.mtype, r.exType)
+					}
+					continue
+				}
 				if f := checkReply(c.Proto, it.kind, it.id, opid, rs[0][4:]); f != nil {
 					return f
 				}
@@ -508,6 +603,8 @@ func execC14Inner(c c14Case) *ev.Failure {
 			switch it.kind {
 			case "ok", "declared", "error", "appex", "oneway", "limit413":
 				want = 1
+			case "big":
+				want = 2 // calibration + the call itself
 			}
 			if it.kind == "oneway" && c.Server == "simple" {
 				// processed asynchronously after the last reply was read; give it a moment
